@@ -27,24 +27,25 @@ Proof.
     + apply IH in H. simpl in H. destruct H as (A & B & C).
       unfold expand in *. simpl. rewrite A, B, C, <- app_assoc, !app_length.
       unfold insert_smap, insert_emap. rewrite !map_length, !seq_length. repeat split; lia.
-    + apply IH in H. simpl in H. destruct H as (A & B & C).
-      unfold expand in *. simpl. rewrite A, B, C, <- app_assoc, !app_length.
-      unfold copy_map. rewrite !repeat_length. repeat split; lia.
+    + destruct (0 <=? grp_start m g)%Z;
+        apply IH in H; simpl in H; destruct H as (A & B & C);
+        unfold expand in *; simpl; rewrite A, B, C, <- app_assoc, !app_length;
+        unfold copy_map; rewrite !repeat_length; repeat split; lia.
 Qed.
 
 Lemma tracked_loop_total s m shift : forall segs start endp delta acc,
   tracked_loop s m shift segs start endp delta acc <> None.
 Proof.
   induction segs as [|sg segs IH]; intros; simpl; [discriminate|].
-  destruct sg; apply IH.
+  destruct sg; [apply IH|]. destruct (0 <=? grp_start m g)%Z; apply IH.
 Qed.
 
-Lemma process_match_spec s m shift tr un :
-  exists p, process_match s m shift tr un = Some p /\
+Lemma process_match_raw_spec s m shift tr un :
+  exists p, process_match_raw s m shift tr un = Some p /\
     p_sub p = expand s m (tr ++ un) /\
     length (p_smap p) = length (p_sub p) /\ length (p_emap p) = length (p_sub p).
 Proof.
-  unfold process_match.
+  unfold process_match_raw.
   destruct tr as [|t0 tr']; [destruct un as [|u0 un']|].
   - eexists; split; [reflexivity|]. simpl. repeat split; reflexivity.
   - simpl tracked_loop. eexists; split; [reflexivity|]. simpl.
@@ -62,6 +63,15 @@ Proof.
       unfold expand in *. rewrite flat_map_app. rewrite A.
       rewrite !app_length, B, C. unfold insert_smap, insert_emap.
       rewrite !map_length, !seq_length, ?app_length. repeat split; try reflexivity; lia.
+Qed.
+
+Lemma process_match_spec s m shift tr un :
+  exists p, process_match s m shift tr un = Some p /\
+    p_sub p = expand s m (tr ++ un) /\
+    length (p_smap p) = length (p_sub p) /\ length (p_emap p) = length (p_sub p).
+Proof.
+  destruct (process_match_raw_spec s m shift tr un) as (p & Hp & A & B & C).
+  unfold process_match. rewrite Hp. eexists; split; [reflexivity|]. simpl. auto.
 Qed.
 
 Lemma rule_loop_spec s tr un : forall ms pos shift acc,
@@ -369,26 +379,22 @@ Proof.
   apply (gap_provenance s tr un (m :: ms) 0 0%Z _ r E Hok Hd); auto.
 Qed.
 
-(* the accounting hypothesis holds for every template without in-order group
-   references (deletions, literals, out-of-order references) *)
-Theorem delta_ok_untracked s m un : m_start m <= m_end m -> delta_ok s m [] un.
+(* the accounting hypothesis holds for every match and every template *)
+Theorem delta_ok_all s m tr un : delta_ok s m tr un.
 Proof.
-  intros Hle shift p H. unfold process_match in H. destruct un as [|u un].
-  - inversion H; subst; simpl. lia.
-  - simpl in H. inversion H; subst; simpl. lia.
+  intros shift p H. unfold process_match in H.
+  destruct (process_match_raw s m shift tr un) as [q|]; [|discriminate].
+  inversion H; subst; simpl. reflexivity.
 Qed.
 
-(* ... and fails for !(a)c -> \1 : the character after the match is attributed
-   one position too early (known finding F9) *)
-Theorem uncovered_refuted :
-  exists s ms tr un st j o,
-    apply_rule s ms tr un = Some st /\ ms_ok s ms 0 /\ In (j, o) (gap_pairs s ms (tr ++ un) 0 0) /\
-    nth_error (st_smap st) (S j) <> Some (Z.of_nat o - Z.of_nat j)%Z.
+(* hence: every character copied from outside all matches is attributed to its
+   original position, for every template *)
+Theorem rule_gap_provenance_all s ms tr un st :
+  ms <> [] -> apply_rule s ms tr un = Some st -> ms_ok s ms 0 ->
+  forall j o, In (j, o) (gap_pairs s ms (tr ++ un) 0 0) ->
+    nth_error (st_smap st) (S j) = Some (Z.of_nat o - Z.of_nat j)%Z /\
+    nth_error (st_emap st) (S j) = Some (Z.of_nat o - Z.of_nat j)%Z.
 Proof.
-  exists [120; 97; 99; 121]%N.
-  exists [{| m_start := 1; m_end := 3; m_groups := [Some (1, 2)]; m_last := Some 1 |}].
-  exists [SGrp 1], [].
-  eexists. exists 2, 3. split; [reflexivity|]. split; [simpl; lia|]. split.
-  - vm_compute. right. left. reflexivity.
-  - vm_compute. discriminate.
+  intros Hne H Hok. apply (rule_gap_provenance s ms tr un st Hne H Hok).
+  intros m _. apply delta_ok_all.
 Qed.
